@@ -62,6 +62,20 @@ def _nowraps(f):
     return wrapper
 
 
+class Shop:
+    # traced as `Shop.create` / `Shop.size` before the edit: the names are still a classmethod and a read-only property, but of
+    # other functions now (a decorator without functools.wraps under @classmethod; `size = property(_count)`)
+    @classmethod
+    @_nowraps
+    def create(cls, a):
+        return cls()
+
+    def _count(self):
+        return 1
+
+    size = property(_count)
+
+
 @_nowraps
 def rewrapped(a):
     # traced as `rewrapped` before it was decorated: the name is bound to `_nowraps.<locals>.wrapper` now
@@ -122,6 +136,8 @@ def rows_for(pkg):
         "s_func_now_settable_property": (core, "K.settable", {"self": k}, INT, None),
         "s_func_now_another_function": (core, "rewrapped", {"a": INT}, INT, None),
         "s_func_local_scope": (core, "outer.<locals>.inner", {"z": INT}, INT, None),
+        "s_classmethod_now_of_another_function": (core, "Shop.create", {"a": INT}, None, None),
+        "s_property_now_of_another_function": (core, "Shop.size", {}, INT, None),
         "s_func_now_builtin_without_signature": (core, "getattr", {"a": INT}, INT, None),
         "s_func_now_builtin": (core, "len", {"a": STR}, INT, None),
         "s_arg_class_removed": (core, "keep", {"a": J(core, "RemovedClass")}, INT, None),
